@@ -32,6 +32,7 @@ import (
 	"fmt"
 	"log/slog"
 	"net/netip"
+	"os"
 	"runtime"
 	"sort"
 	"strings"
@@ -121,6 +122,7 @@ const (
 	c13EvParked = iota
 	c13EvLeft
 	c13EvDone
+	c13EvExhausted // NextMessageCounter refused: the sender left its critical section without reaching the cipher
 )
 
 type c13Event struct {
@@ -142,6 +144,7 @@ type c13H struct {
 	seq     atomic.Int64
 	yield   [][]uint8
 	ypos    []int
+	gids    sync.Map // goroutine id -> sender (scheduled test only)
 }
 
 type c13Gate struct {
@@ -196,6 +199,33 @@ func (g *c13Gate) EncryptDanger(out, ad, plaintext []byte, n uint64, nb []byte) 
 		g.h.ev <- c13Event{w: w, kind: c13EvLeft, key: g.key, n: n, sealed: e.sealed, panic: e.panic}
 	}
 	return res, err
+}
+
+// c13ExhaustCounter is Interface.messageMetrics.txExhausted: besides counting, it tells the
+// scheduler which sender was just refused by NextMessageCounter (the only way through a send path's
+// critical section that does not reach the cipher), so that every step of every sender is observed.
+type c13ExhaustCounter struct {
+	metrics.Counter
+	h *c13H
+}
+
+func (c *c13ExhaustCounter) Inc(i int64) {
+	c.Counter.Inc(i)
+	if c.h.park {
+		if w, ok := c.h.gids.Load(c13GoroutineID()); ok {
+			c.h.ev <- c13Event{w: w.(int), kind: c13EvExhausted}
+		}
+	}
+}
+
+func c13GoroutineID() string {
+	var buf [64]byte
+	b := buf[:runtime.Stack(buf[:], false)] // "goroutine 123 [running]:..."
+	f := strings.Fields(string(b))
+	if len(f) >= 2 {
+		return f[1]
+	}
+	return ""
 }
 
 type c13Conn struct {
@@ -264,7 +294,7 @@ func c13NewWorld(chacha bool, startA, startT uint64, workers int, park bool) *c1
 
 	w.f = &Interface{
 		l:                 l,
-		messageMetrics:    &MessageMetrics{txExhausted: metrics.NewCounter()},
+		messageMetrics:    &MessageMetrics{txExhausted: &c13ExhaustCounter{Counter: metrics.NewCounter(), h: w.h}},
 		connectionManager: &connectionManager{relayUsed: map[uint32]struct{}{}, relayUsedLock: &sync.RWMutex{}, l: l},
 		hostMap:           &HostMap{Hosts: map[netip.Addr]*HostInfo{addrA: w.hA}},
 	}
@@ -622,48 +652,7 @@ func TestC13_Schedules(t *testing.T) {
 		blocked := func(id int) bool {
 			return lock && state[id] == c13Contending && holder[want[id]] != -1
 		}
-		// Lock mode only. A sender that heads for NextMessageCounter while the counter already sits at
-		// the ceiling passes through its critical section without reaching the cipher (no event); the
-		// controller follows it so that it knows which lock the sender waits for next. The counter is
-		// only read to drive the schedule, never by the oracle. Once true the condition stays true.
-		usesNMC := func(id int, key string) bool {
-			switch ops[id].Kind {
-			case "ctl", "via", "ctlR":
-				return true
-			case "hotR":
-				return key == "A"
-			}
-			return false
-		}
-		counterOf := func(key string) uint64 {
-			if key == "T" {
-				return w.ciT.messageCounter.Load()
-			}
-			return w.ciA.messageCounter.Load()
-		}
-		normalize := func() {
-			if !lock {
-				return
-			}
-			for changed := true; changed; {
-				changed = false
-				for id := range state {
-					if state[id] == c13Contending && !blocked(id) && usesNMC(id, want[id]) && counterOf(want[id]) >= RejectAfterMessages-1 {
-						changed = true
-						if ops[id].Kind == "hotR" {
-							seg[id]++
-							if seg[id] < ops[id].Segs {
-								want[id] = "T"
-								continue
-							}
-						}
-						state[id] = c13Finishing
-					}
-				}
-			}
-		}
 		quiescent := func() bool {
-			normalize()
 			for id := range state {
 				if state[id] == c13Finishing || (state[id] == c13Contending && !blocked(id)) {
 					return false
@@ -692,12 +681,25 @@ func TestC13_Schedules(t *testing.T) {
 				}
 			case c13EvDone:
 				state[e.w] = c13Done
+			case c13EvExhausted:
+				// refused by NextMessageCounter on the key it was heading for
+				if ops[e.w].Kind == "hotR" && want[e.w] == "A" {
+					seg[e.w]++
+					if seg[e.w] < ops[e.w].Segs {
+						want[e.w] = "T"
+						break
+					}
+				}
+				state[e.w] = c13Finishing
 			case c13EvLeft:
 				if lock && holder[e.key] == e.w {
 					holder[e.key] = -1
 				}
 				if k, more := next(e.w, e.key, e.sealed); more {
 					state[e.w], want[e.w] = c13Contending, k
+					if lock && holder[k] != -1 {
+						contended++
+					}
 				} else {
 					state[e.w] = c13Finishing
 				}
@@ -707,9 +709,10 @@ func TestC13_Schedules(t *testing.T) {
 			select {
 			case e := <-w.h.ev:
 				return e
-			case <-time.After(60 * time.Second):
-				fmt.Printf("VERIF-INFRA: C13 senders did not become quiescent within 60s (%s, schedule %v)\n", what, sched)
-				rt.Fatalf("watchdog")
+			case <-time.After(30 * time.Second):
+				fmt.Printf("VERIF-INFRA: C13 senders did not become quiescent within 30s (%s, lock=%v ops=%v schedule %v states %v want %v)\n", what, lock, ops, sched, state, want)
+				vk.Flush()
+				os.Exit(3)
 				panic("unreachable")
 			}
 		}
@@ -747,23 +750,82 @@ func TestC13_Schedules(t *testing.T) {
 			if allDone {
 				break
 			}
-			doStart := false
-			switch {
-			case nextStart < n && len(parked) == 0:
-				doStart = true
-			case nextStart >= n:
-				doStart = false
-			case mode == "burst":
-				doStart = true
-			case mode == "serial":
-				doStart = false
-			default:
-				doStart = rapid.IntRange(0, len(parked)).Draw(rt, "act") == 0
+			// Candidate actions: start the next sender, or release a parked one. In lock mode actions that
+			// would leave two senders free to take the same lock (winner chosen by the Go runtime) are
+			// avoided whenever another action exists, so that the draws determine the interleaving.
+			waiters := func(key string) int {
+				c := 0
+				for id := range state {
+					if state[id] == c13Contending && want[id] == key {
+						c++
+					}
+				}
+				return c
 			}
-			if !doStart && len(parked) == 0 {
+			mayWantAgain := func(id int, key string) bool {
+				o := ops[id]
+				return (o.Kind == "hot" && key == "A" && seg[id]+1 < o.Segs) || (o.Kind == "hotR" && key == "T" && seg[id]+1 < o.Segs)
+			}
+			canQueue := func(key string) bool { // may one more sender head for this lock?
+				h := holder[key]
+				return h == -1 || (waiters(key) == 0 && !mayWantAgain(h, key))
+			}
+			safe := func(start bool, id int) bool {
+				if !lock {
+					return true
+				}
+				if start {
+					return canQueue(firstKey(ops[id]))
+				}
+				x := parkedKey[id]
+				if waiters(x) > 0 && mayWantAgain(id, x) {
+					return false
+				}
+				switch o := ops[id]; {
+				case (o.Kind == "ctlR" || o.Kind == "hotR") && x == "T":
+					return canQueue("A")
+				case o.Kind == "hotR" && x == "A" && seg[id]+1 < o.Segs:
+					return canQueue("T")
+				}
+				return true
+			}
+			type c13Act struct {
+				start bool
+				id    int
+			}
+			var cands, safeCands []c13Act
+			if nextStart < n {
+				cands = append(cands, c13Act{true, nextStart})
+			}
+			for _, id := range parked {
+				cands = append(cands, c13Act{false, id})
+			}
+			for _, c := range cands {
+				if safe(c.start, c.id) {
+					safeCands = append(safeCands, c)
+				}
+			}
+			if len(safeCands) > 0 {
+				cands = safeCands
+			}
+			if len(cands) == 0 {
 				harnessErr = append(harnessErr, "no sender is parked and none can be started, but not all are done")
 				break
 			}
+			pick := 0
+			switch {
+			case len(cands) == 1:
+			case mode == "burst" && cands[0].start:
+			case mode == "serial" && cands[0].start:
+				// releases first
+				pick = 1
+				if len(cands) > 2 {
+					pick = 1 + rapid.IntRange(0, len(cands)-2).Draw(rt, "release")
+				}
+			default:
+				pick = rapid.IntRange(0, len(cands)-1).Draw(rt, "act")
+			}
+			doStart := cands[pick].start
 			if doStart {
 				id := nextStart
 				nextStart++
@@ -773,17 +835,14 @@ func TestC13_Schedules(t *testing.T) {
 					contended++
 				}
 				go func() {
+					w.h.gids.Store(c13GoroutineID(), id)
 					w.run(id, ops[id])
 					w.h.ev <- c13Event{w: id, kind: c13EvDone}
 				}()
 				settle("start")
 				continue
 			}
-			k := 0
-			if len(parked) > 1 {
-				k = rapid.IntRange(0, len(parked)-1).Draw(rt, "release")
-			}
-			id := parked[k]
+			id := cands[pick].id
 			sched = append(sched, fmt.Sprintf("r%d", id))
 			state[id] = c13Finishing // until its `left` event says where it heads
 			w.h.release[id] <- struct{}{}
